@@ -133,13 +133,22 @@ structure MCfg where
   emptyKeyIsError    : Bool   -- `extractKeyFromTreasure` rejects an empty key
   metaErrorAborts    : Bool   -- an unreadable meta file fails the migration (instead of migrating without the name)
   verifyValues       : Bool   -- verification compares values too (currently: key presence only)
+  refusesExisting    : Bool   -- a `.hyd` file that is already there fails the swamp (phase "write") untouched,
+                              -- instead of being opened for appending by `NewFileWriterWithName`
   deriving DecidableEq, Repr, Inhabited
 
-def good : MCfg := ⟨true, true, true, true, true, true, true, true, false⟩
+def good : MCfg := ⟨true, true, true, true, true, true, true, true, false, true⟩
 
 /-- the V2 codec as a parameter: how a file is written from inserts and read back -/
 structure V2 (α : Type) (File : Type) where
   write   : α → List (Entry α) → File
+  /-- `NewFileWriterWithName` on a path that exists: the file is opened for appending (its header, and with it
+      its name, stay); `none` = it cannot be opened (too short, bad header) -/
+  append  : File → List (Entry α) → Option File
+  /-- `WriteEntry`'s validation (an empty key, a key longer than 65535 bytes) -/
+  accepts : Entry α → Bool
+  /-- `createNewFile`'s name-length guard (checked before anything is created) -/
+  acceptsName : α → Bool
   loadMap : File → α → Option α
   nameOf  : File → α
   hasKey  : File → α → Bool      -- `LoadIndex` (used by verification)
@@ -190,10 +199,15 @@ structure V2.Lawful {File : Type} (v : V2 α File) (okE : Entry α → Prop) (ok
   load : ∀ nm es, okN nm → (∀ e ∈ es, okE e) → (es.map Prod.fst).Nodup → ∀ k, v.loadMap (v.write nm es) k = lookup es k
   name : ∀ nm es, okN nm → (∀ e ∈ es, okE e) → v.nameOf (v.write nm es) = nm
   keys : ∀ nm es k, okN nm → (∀ e ∈ es, okE e) → (es.map Prod.fst).Nodup → v.hasKey (v.write nm es) k = (lookup es k).isSome
+  acc  : ∀ e, okE e → v.accepts e = true
+  accN : ∀ nm, okN nm → v.acceptsName nm = true
 
 /-- the trivial codec used by the driver -/
 def idV2 : V2 α (α × List (Entry α)) where
   write nm es := (nm, es)
+  append f es := some (f.1, es ++ f.2.filter (fun e => !es.any (fun x => x.1 == e.1)))   -- the appended inserts win
+  accepts _ := true
+  acceptsName _ := true
   loadMap f k := lookup f.2 k
   nameOf f := f.1
   hasKey f k := (lookup f.2 k).isSome
@@ -209,7 +223,8 @@ def deleteV1 {File : Type} (ft : Fault) (d : Disk α File) : Disk α File :=
 def verifyOk {File : Type} (cfg : MCfg) (v : V2 α File) (f : File) (es : List (Entry α)) : Bool :=
   es.all (fun e => v.hasKey f e.1 && (!cfg.verifyValues || v.loadMap f e.1 == some e.2))
 
-/-- `migrateSwamp` for one folder.  `nm0` = the swamp name in the meta file. -/
+/-- `migrateSwamp` for one folder.  `nm0` = the swamp name in the meta file; `d.hyd` = what is at the target path
+    before the run (`none` in a first migration; a file from an earlier run, or planted, otherwise). -/
 def migrate {File : Type} (cfg : MCfg) (v : V2 α File) (o : Opts) (ft : Fault) (nm0 : α) (d : Disk α File) :
     Res × Disk α File :=
   -- `loadSwampNameFromMeta` failing is only logged: the migration goes on with an empty name
@@ -221,15 +236,29 @@ def migrate {File : Type} (cfg : MCfg) (v : V2 α File) (o : Opts) (ft : Fault) 
     if es.isEmpty then
       (.skippedEmpty, if o.deleteOld && !o.dryRun then deleteV1 ft d else d)
     else if o.dryRun then (.success, d)
+    else if cfg.refusesExisting && d.hyd.isSome then (.failed "write", d)
     else
+      -- what a complete write puts at the target path (`none`: the writer cannot even be created; nothing is touched)
+      let target : Option File := match d.hyd with
+        | none => if v.acceptsName nm then some (v.write nm es) else none
+        | some f => v.append f es
       let del (x : Disk α File) : Disk α File := if o.deleteOld then deleteV1 ft x else x
-      let written (x : Disk α File) : Disk α File := { x with hyd := some (v.write nm es) }
+      let written (x : Disk α File) : Disk α File := { x with hyd := target }
+      -- `WriteEntry` refuses a record: same branch as a failing write of a block
+      let wfails : Bool := ft.isWrite || target.isNone || es.any (fun e => !v.accepts e)
       -- a failed write leaves nothing (`os.Remove`) or a partial file
       let wfail (x : Disk α File) : Disk α File :=
-        let removes := match ft with
-          | .write 0 => cfg.removeOnOpenFail
-          | _ => cfg.removeOnWriteFail
-        if removes then { x with hyd := none } else { x with hyd := some (v.write nm []) }
+        if target.isNone then x
+        else match d.hyd with
+          | none =>
+            let removes := match ft with
+              | .write 0 => cfg.removeOnOpenFail
+              | _ => cfg.removeOnWriteFail
+            if removes then { x with hyd := none } else { x with hyd := some (v.write nm []) }
+          | some f =>
+            -- opening an existing file writes nothing; a failure later removes the file — the one that was there
+            if ft = .write 0 then x
+            else if cfg.removeOnWriteFail then { x with hyd := none } else { x with hyd := (v.append f []).getD f }
       let vfails (x : Disk α File) : Bool :=
         o.verify && (ft = .verify || match x.hyd with
                                      | some f => !verifyOk cfg v f es
@@ -238,15 +267,15 @@ def migrate {File : Type} (cfg : MCfg) (v : V2 α File) (o : Opts) (ft : Fault) 
       -- the three effects in the order the code performs them
       match cfg.writeBeforeDelete, cfg.verifyBeforeDelete with
       | true, true =>
-        if ft.isWrite then (.failed "write", wfail d)
+        if wfails then (.failed "write", wfail d)
         else if vfails (written d) then (.failed "verify", unwrite (written d))
         else (.success, del (written d))
       | true, false =>
-        if ft.isWrite then (.failed "write", wfail d)
+        if wfails then (.failed "write", wfail d)
         else if vfails (del (written d)) then (.failed "verify", unwrite (del (written d)))
         else (.success, del (written d))
       | false, _ =>
-        if ft.isWrite then (.failed "write", wfail (del d))
+        if wfails then (.failed "write", wfail (del d))
         else if vfails (written (del d)) then (.failed "verify", unwrite (written (del d)))
         else (.success, written (del d))
 
@@ -258,8 +287,9 @@ def migrateGood {File : Type} (v : V2 α File) (o : Opts) (ft : Fault) (nm0 : α
   if ft = .load || ft = .metaRead || segs.any (fun s => s.key == default) then (.failed "load", d)
   else if es.isEmpty then (.skippedEmpty, if o.deleteOld && !o.dryRun then deleteV1 ft d else d)
   else if o.dryRun then (.success, d)
-  else if ft.isWrite then (.failed "write", { d with hyd := none })
-  else if o.verify && (ft = .verify || !verifyOk good v (v.write nm es) es) then (.failed "verify", { d with hyd := none })
+  else if d.hyd.isSome then (.failed "write", d)
+  else if ft.isWrite || !v.acceptsName nm || es.any (fun e => !v.accepts e) then (.failed "write", d)
+  else if o.verify && (ft = .verify || !verifyOk good v (v.write nm es) es) then (.failed "verify", d)
   else (.success, if o.deleteOld then deleteV1 ft { d with hyd := some (v.write nm es) } else { d with hyd := some (v.write nm es) })
 
 end
